@@ -430,6 +430,28 @@ class Corpus:
             open(out, "wb").write(b"".join(lzma.compress(raw[a:b], format=lzma.FORMAT_XZ) for a, b in zip(cut, cut[1:])))
             self.items.append(("d-pax-multistream.tar.xz", out, dict(derived="pax-multistream-xz")))
 
+        # Info-ZIP style zip (sizes in the local headers, no data descriptor - libarchive's own writer uses
+        # length-at-end): deflate members far larger than one decode step, so that a partial read stops inside
+        # the deflate stream and the following skip has to account for what was already consumed
+        try:
+            import zipfile, io
+            b = io.BytesIO()
+            with zipfile.ZipFile(b, "w", zipfile.ZIP_DEFLATED) as z:
+                for nm, n, k in (("a.bin", 600000, 7), ("b.txt", 46, 3), ("d.bin", 600000, 11), ("c.txt", 44, 5)):
+                    z.writestr(nm, bytes(((i * k) ^ (i >> 9) * 31) & 0xff for i in range(n)))
+            out = os.path.join(self.dir, "d-infozip-deflate-big.zip")
+            open(out, "wb").write(b.getvalue())
+            self.items.append(("d-infozip-deflate-big.zip", out, dict(derived="python-zipfile deflate, sizes in local headers")))
+            b = io.BytesIO()
+            with zipfile.ZipFile(b, "w", zipfile.ZIP_STORED) as z:
+                for nm, n, k in (("a.bin", 300000, 7), ("b.txt", 46, 3), ("c.txt", 44, 5)):
+                    z.writestr(nm, bytes(((i * k) ^ (i >> 9) * 31) & 0xff for i in range(n)))
+            out = os.path.join(self.dir, "d-infozip-store-big.zip")
+            open(out, "wb").write(b.getvalue())
+            self.items.append(("d-infozip-store-big.zip", out, dict(derived="python-zipfile stored, sizes in local headers")))
+        except Exception:
+            pass
+
 def ext_zeros(dg, n):
     """digest (len,h1,h2) of the string followed by n zero bytes"""
     ln, h1, h2 = dg
